@@ -340,6 +340,25 @@ def scn_scaler_reuse(T, case):
     C11.scn_linear(Renamed(T, "C11.linear.", "C13.scaler_reuse."), case)
 
 
+# ------------------------------------------------------------------- feasibility of the results a tracker keeps (C12's step contract)
+def cases_tracked(tier):
+    from contracts import C12
+
+    for cid, c in C12.cases_step(tier):
+        if c["tol"] != "none" and not c.get("ignore") and (c["flip"] or len(c["kinds"]) == 1):
+            yield cid, c
+
+
+def scn_tracked(T, case):
+    """'A result is treated as feasible iff every violation is within the tolerance' where results are selected: the 'best' and the
+    'last' tracker judge every delivered result by its violation in the domain the optimizer works in (the transformed results of
+    the event when there are any), both alike (C12's tracker step contract under this property's prefix)."""
+    from contracts import C12
+    from contracts.reuse import Renamed
+
+    C12.scn_step(Renamed(T, "C12.", "C13.tracked."), case)
+
+
 SCENARIOS = [
     Scenario("create", scn_create, cases_create, {"quick": 6, "thorough": 60}),
     Scenario("transform_from_optimizer", scn_transform, cases_transform, {"quick": 10, "thorough": 100}),
@@ -348,6 +367,7 @@ SCENARIOS = [
     Scenario("user_domain_results", scn_user_results, cases_user_results, {"quick": 3, "thorough": 20}),
     Scenario("plan_steps_hand_over", scn_steps, cases_steps, {"quick": 1, "thorough": 2}),
     Scenario("scaler_object_reused_for_another_configuration", scn_scaler_reuse, cases_scaler_reuse, {"quick": 5, "thorough": 30}),
+    Scenario("feasibility_of_tracked_results", scn_tracked, cases_tracked, {"quick": 5, "thorough": 30}),
 ]
 
 MANIFEST = {
